@@ -1464,38 +1464,42 @@ def grp_identical_cells(a, b):
 
 SPNAMES = ["O3", "NO", "NO2", "OH", "HO2", "CO", "CH4", "H2O2"]
 
-def gen_build_case(r, errors=False):
+def gen_build_case(r, errors=False, multi_phase=False):
     ng = r.rng(0 if errors and r.chance(0.2) else 1, 5)
     names = r.shuffle(SPNAMES)[:ng + 3]
     gas = names[:ng]
-    nph = r.below(2)
-    aq = names[ng:ng + r.rng(1, 2)] if nph else []
-    # the same species (bare name) may live in the gas phase and in the other phase
-    aq2 = []
-    for n in aq:
-        if gas and r.chance(0.4):
-            n = r.pick(gas)
-        if n not in aq2:
-            aq2.append(n)
-    aq = aq2
+    # non-gas phases: usually at most one (the unordered_map's iteration order is then irrelevant and the model can
+    # predict the state order); `multi_phase` draws two or three (judged by the order-independent oracle only)
+    phase_names = r.shuffle(["aq", "org", "ice"])[:(r.rng(2, 3) if multi_phase else r.below(2))]
+    nph = len(phase_names)
     def decl(n, param=False):
         has = r.chance(0.5) and not param   # a tolerance property on a parameterized (non-state) species is outside the property
         return [n, "1" if param else "0", "1" if has else "0", hexd(r.pick([1e-5, 1e-8, 1e-12, 2.5e-4]) if has else 0.0)]
-    toks = []
     gas_decl = [decl(n) for n in gas]
     if ng and r.chance(0.15):
         gas_decl.append(decl("M", param=True))
     sysdecl = [str(len(gas_decl))] + [t for d in gas_decl for t in d]
     sysdecl += [str(nph)]
+    tol = {}
+    for d in gas_decl:
+        if d[1] == "0": tol[d[0]] = unhex(d[3]) if d[2] == "1" else 1e-3
     aq_full = []
-    if nph:
-        sysdecl += ["aq", r.pick(["-", "aq", "aqueous", "gas"]), str(len(aq))] + [t for n in aq for t in decl(n)]
-        aq_full = ["aq." + n for n in aq]
+    for pn in phase_names:
+        pool = names[ng:ng + r.rng(1, 2)]
+        # the same species (bare name) may live in the gas phase and in other phases
+        sp = []
+        for n in pool:
+            if gas and r.chance(0.4): n = r.pick(gas)
+            if n not in sp: sp.append(n)
+        decls = [decl(n) for n in sp]
+        sysdecl += [pn, r.pick(["-", pn, pn + "ueous", "gas"]), str(len(sp))] + [t for d in decls for t in d]
+        for d in decls:
+            aq_full.append(pn + "." + d[0])
+            tol[pn + "." + d[0]] = unhex(d[3]) if d[2] == "1" else 1e-3
     avail = gas + aq_full
     nrx = r.rng(1, 4)
     rxt = [str(nrx)]
     used = set()
-    unknown = False
     for _ in range(nrx):
         nr = r.rng(1, 2); np_ = r.rng(0, 2)
         rs = [r.pick(avail) if avail else "X" for _ in range(nr)]
@@ -1520,18 +1524,7 @@ def gen_build_case(r, errors=False):
     reorder = r.below(2)
     line = " ".join(["build", str(hasSys), str(hasRx), str(ignoreUnused), str(reorder)] + sysdecl + rxt)
     meta = dict(gas=gas, aq=aq_full, avail=avail, used=used, hasSys=hasSys, hasRx=hasRx, ignoreUnused=ignoreUnused, reorder=reorder,
-                decl={**{d[0]: (d[2] == "1", unhex(d[3])) for d in gas_decl if d[1] == "0"},
-                      **{"aq." + sysdecl_name: v for sysdecl_name, v in []}})
-    # tolerance expectations (by unique name)
-    tol = {}
-    for d in gas_decl:
-        if d[1] == "0": tol[d[0]] = unhex(d[3]) if d[2] == "1" else 1e-3
-    if nph:
-        k = sysdecl.index("aq") + 3
-        for q in range(len(aq)):
-            d = sysdecl[k + 4 * q:k + 4 * q + 4]
-            tol["aq." + d[0]] = unhex(d[3]) if d[2] == "1" else 1e-3
-    meta["tol"] = tol
+                tol=tol, nph=nph)
     return line, meta
 
 def oracle_build(c, out):
@@ -1573,7 +1566,7 @@ def g_c14(r, tier, env, Ls):
     cs = []
     for _ in range(200 if tier == "quick" else 3000):
         line, meta = gen_build_case(r, errors=False)
-        cs.append(Case(line, meta, "build", oracle=oracle_build, tags=["reorder=%d" % meta["reorder"], "phases=%d" % (1 if meta["aq"] else 0)]))
+        cs.append(Case(line, meta, "build", oracle=oracle_build, tags=["reorder=%d" % meta["reorder"], "phases=%d" % meta["nph"]]))
     # DiagonalMarkowitzReorder: exhaustive over all n x n patterns
     nmax = 3 if tier == "quick" else 4
     for n in range(1, nmax + 1):
@@ -1582,6 +1575,11 @@ def g_c14(r, tier, env, Ls):
                 continue
             b = [(bits >> q) & 1 for q in range(n * n)]
             cs.append(Case(" ".join(["markowitz", str(n)] + [str(x) for x in b]), dict(n=n), "markowitz", oracle=oracle_perm, tags=["markowitz_n=%d" % n]))
+    # several non-gas phases: the order of their species in the state follows the unordered_map's iteration order, which
+    # the model cannot know in advance -- judged by the order-independent oracle (bijection, names, tolerance by name)
+    for _ in range(60 if tier == "quick" else 1000):
+        line, meta = gen_build_case(r, errors=False, multi_phase=True)
+        cs.append(Case(line, meta, "build-multiphase", oracle=oracle_build, compare=False, tags=["reorder=%d" % meta["reorder"], "phases=%d" % meta["nph"]]))
     # permutation invariance of the per-species solution (reorder on/off, species listed in different orders), tolerances by name
     cs += gen_bsolve_groups(r, env, Ls, 30 if tier == "quick" else 500, "c14b")
     return cs
